@@ -18,14 +18,13 @@ use parking_lot::Mutex;
 
 use std::collections::HashMap;
 use std::io::ErrorKind;
-use std::pin::Pin;
 use std::sync::Arc;
 
 pub(crate) struct XPubSubscriber {
     /// The number of the connection (see `backend::next_conn`)
     pub(crate) conn: u64,
     pub(crate) subscriptions: Vec<Vec<u8>>,
-    pub(crate) send_queue: Pin<Box<ZmqFramedWrite>>,
+    pub(crate) send_queue: crate::backend::SubscriberQueue,
 }
 
 pub(crate) struct XPubSocketBackend {
@@ -111,7 +110,7 @@ impl MultiPeerBackend for XPubSocketBackend {
                 XPubSubscriber {
                     conn,
                     subscriptions: vec![],
-                    send_queue: Box::pin(send_queue),
+                    send_queue: crate::backend::SubscriberQueue::new(send_queue),
                 },
             )
             .await;
@@ -168,7 +167,6 @@ impl SocketSend for XPubSocket {
                 {
                     let res = subscriber
                         .send_queue
-                        .as_mut()
                         .try_send(Message::Message(message.clone()));
                     match res {
                         Ok(()) => {}
